@@ -20,6 +20,23 @@ FIXED = [
 ]
 
 
+LOOP_STRUCTS = [
+    [(1, "b1"), (2, "L2,3 b1 b0 b1"), (3, "i7")],
+    [(1, "b0"), (2, "L2,3 b1 b0 b1"), (3, "i7")],
+    [(1, "b1"), (2, "i5"), (3, "T2,2 b0 b1"), (4, "M2,8,1 b1 i3")],
+    [(1, "b0"), (2, "M8,2,2 i1 b1 i2 b0"), (3, "b1"), (4, "L2,1 b0")],
+    [(5, "b1"), (6, "S2 f1 b0 f2 L2,2 b1 b1"), (7, "L2,2 b0 b1")],
+    [(1, "s6162"), (2, "b1"), (20, "L12,1 S1 f1 L2,2 b1 b0"), (21, "b0"), (22, "M2,2,1 b0 b1")],
+    [(1, "L2,2 b1 b0"), (2, "b1"), (3, "L2,2 b0 b0"), (4, "y3")],
+    [(-3, "b1"), (300, "T2,1 b0"), (301, "d4609434218613702656")],
+]
+
+APP_EXTRAS = [[(3, "b1"), (4, "L2,3 b1 b0 b1")], [(3, "b0"), (4, "T2,2 b1 b0"), (5, "M2,2,1 b1 b0")],
+              [(3, "S2 f1 b1 f2 L2,2 b1 b0")], [(7, "L12,2 S1 f1 b1 S2 f1 b0 f2 L2,1 b1")], [(3, "b1"), (4, "i9"), (5, "L2,1 b0")],
+              [(3, "u000102030405060708090a0b0c0d0e0f"), (4, "M11,2,1 s61 b1")], [(3, "b1")], [(3, "L2,2 b1 b0")],
+              [(9, "S3 f1 b1 f2 b0 f3 T2,2 b0 b1")], [(3, "d1"), (4, "l-5"), (5, "h3"), (6, "y1"), (8, "s6162")]]
+
+
 def vdepth(toks):
     """nesting depth of a value given as tokens (leaf = 1), mirrors coq vdepth"""
     pos = [0]
@@ -116,16 +133,7 @@ def gen_cases(rng, n, runner):
     # the public skip(ttype) entry driven from a FIELD LOOP (read_field_begin; skip(field type); read_field_end) as generated
     # decoders and ApplicationException::decode do: one or several skipped fields -- among them bool fields, whose value the
     # compact protocol parks in the reader -- followed by decoded fields incl. bool containers
-    loop_structs = [
-        [(1, "b1"), (2, "L2,3 b1 b0 b1"), (3, "i7")],
-        [(1, "b0"), (2, "L2,3 b1 b0 b1"), (3, "i7")],
-        [(1, "b1"), (2, "i5"), (3, "T2,2 b0 b1"), (4, "M2,8,1 b1 i3")],
-        [(1, "b0"), (2, "M8,2,2 i1 b1 i2 b0"), (3, "b1"), (4, "L2,1 b0")],
-        [(5, "b1"), (6, "S2 f1 b0 f2 L2,2 b1 b1"), (7, "L2,2 b0 b1")],
-        [(1, "s6162"), (2, "b1"), (20, "L12,1 S1 f1 L2,2 b1 b0"), (21, "b0"), (22, "M2,2,1 b0 b1")],
-        [(1, "L2,2 b1 b0"), (2, "b1"), (3, "L2,2 b0 b0"), (4, "y3")],
-        [(-3, "b1"), (300, "T2,1 b0"), (301, "d4609434218613702656")],
-    ]
+    loop_structs = [list(x) for x in LOOP_STRUCTS]
     for _ in range(max(0, n // 400)):
         k = rng.randrange(2, 6)
         ids = sorted(rng.sample(range(1, 40), k))
@@ -162,9 +170,7 @@ def gen_cases(rng, n, runner):
                 if pk == "binary":
                     cases.append(("rds unsafe sync %s %s" % (hx + "00" * 16, idl), dict(meta, kind="valid-loop-unsafe", trailing=16)))
         # ApplicationException::decode / ::decode_async: an exception struct of a newer peer carrying unknown fields
-        for extra in ([(3, "b1"), (4, "L2,3 b1 b0 b1")], [(3, "b0"), (4, "T2,2 b1 b0"), (5, "M2,2,1 b1 b0")],
-                      [(3, "S2 f1 b1 f2 L2,2 b1 b0")], [(7, "L12,2 S1 f1 b1 S2 f1 b0 f2 L2,1 b1")], [(3, "b1"), (4, "i9"), (5, "L2,1 b0")],
-                      [(3, "u000102030405060708090a0b0c0d0e0f"), (4, "M11,2,1 s61 b1")]):
+        for extra in APP_EXTRAS:
             for order in (0, 1, 2):
                 base = [(1, "s626f6f6d"), (2, "i6")]
                 fl = (base + extra) if order == 0 else ([base[0]] + extra + [base[1]]) if order == 1 else (extra + base)
